@@ -101,11 +101,14 @@ def run(case, tape=None):
                     raise OracleFail('finders-disagree', dict(rank=rank, relerr=phys.relerr(np.real(rho2.getAllData()), first)))
                 if case['dseed'] % 2:
                     df = df2
+            keep2 = np.array(rho2.getAllData(), copy=True) if case.get('second_finder') else None
             if case['fn'] == 'pert':
                 df.getPerturbedRho(f, rho)
             else:
                 df.getRho(f, rho)
             out = phys.block(rho)
+            if keep2 is not None and not cm.bits_equal(rho2.getAllData(), keep2):
+                raise OracleFail('density-differs', dict(rank=rank, why='computing one density grid changed another grid on the same layout manager'))
             again = None
             if case.get('again'):
                 # the same finder and density grid used for the next time step (other data, the other function)
